@@ -4,7 +4,7 @@ cd /verif
 for d in seeded/*/; do
   id=$(basename $d); pid=${id%%-*}
   git -C /repo diff --quiet || { echo "/repo dirty"; exit 3; }
-  git -C /repo apply $d/patch.diff || { echo "$id: patch does not apply"; continue; }
+  git -C /repo apply /verif/${d}patch.diff 2>/dev/null || { echo "$id: patch does not apply"; continue; }
   ./check $pid > /tmp/reeval_$id.log 2>&1; rc=$?
   git -C /repo checkout -- .
   echo "$id exit=$rc $(grep -c '^VIOLATION' /tmp/reeval_$id.log) violations $(grep -m1 '^CHECKER' /tmp/reeval_$id.log | cut -c1-100)"
